@@ -722,7 +722,8 @@ func instantiate(t *rapid.T, name, pattern string, extra ...string) string {
 		case refmux.Lit:
 			out = append(out, tk)
 		case refmux.Full:
-			k := rapid.IntRange(1, 3).Draw(t, "nfull")
+			// (now and then a name of several dozen parts)
+			k := rapid.SampledFrom([]int{1, 1, 2, 2, 3, 3, 3, 31, 40}).Draw(t, "nfull")
 			for i := 0; i < k; i++ {
 				out = append(out, part.Draw(t, "part"))
 			}
@@ -821,7 +822,7 @@ func GenRequest(name string, hs []HandlerSpec, uniq string) *rapid.Generator[Req
 		var rname string
 		switch k := rapid.IntRange(0, 11).Draw(t, "nkind"); {
 		case k == 0:
-			rname = name + "." + rapid.SampledFrom([]string{"nosuch", "item", "item.1.sub.x", "model.extra", "new"}).Draw(t, "nomatch")
+			rname = name + "." + rapid.SampledFrom([]string{"nosuch", "item", "item.1.sub.x", "model.extra", "new", "item" + strings.Repeat(".a", 40), strings.Repeat("x.", 32) + "x"}).Draw(t, "nomatch")
 		case k == 1:
 			rname = rapid.SampledFrom([]string{name, "other.model", name + "x.model"}).Draw(t, "outside")
 		default:
